@@ -654,7 +654,12 @@ func check(prop, tier string) int {
 			fmt.Fprintf(os.Stderr, "HARNESS: worker %d reports nondeterministic re-execution: %s\n", i, wo.nondet[0])
 			harness++
 		}
-		if wo.crashed != nil {
+		if wo.crashed != nil && !strings.Contains(wo.stderr, "pierrec/lz4/v4") && !strings.Contains(wo.stderr, "WATCHDOG") && !strings.Contains(wo.stderr, "stack overflow") && !strings.Contains(wo.stderr, "goroutine stack exceeds") {
+			// a panic with no frame of the library in its trace is a bug of
+			// the harness itself: trouble, never a verdict
+			fmt.Fprintf(os.Stderr, "HARNESS: worker %d died in run %d with no library frame in the trace:\n%s\n", i, *wo.crashed, tail(wo.stderr, 1500))
+			harness++
+		} else if wo.crashed != nil {
 			// The process died during run *crashed: the run's plan is the replay.
 			p := plan.Gen(prop, tier, seed, *wo.crashed)
 			crashes = append(crashes, result{Index: *wo.crashed, Plan: p.JSON(), race: wo.race,
